@@ -162,6 +162,26 @@ func (w *World) Func(rel, name string) *ssa.Function {
 	if len(found) == 1 {
 		return found[0]
 	}
+	// Fallback: the anchor was renamed (see renamedAnchors in norm.go)
+	for newFull, oldFull := range renamedAnchors {
+		k := shortKey(oldFull)
+		if i := strings.Index(k, "#"); i < 0 || k[:i] != p.Pkg.Path() || k[i+1:] != mn {
+			continue
+		}
+		nk := shortKey(newFull)
+		nn := nk[strings.Index(nk, "#")+1:]
+		var got []*ssa.Function
+		for _, fn := range w.ModuleFuncs() {
+			if fn.Parent() == nil && fn.Pkg == p && fn.Name() == nn && fn.Synthetic == "" {
+				if obj, ok := fn.Object().(*types.Func); ok && obj.FullName() == newFull {
+					got = append(got, fn)
+				}
+			}
+		}
+		if len(got) == 1 {
+			return got[0]
+		}
+	}
 	return nil
 }
 
